@@ -6,14 +6,14 @@ set -u
 cd "$WT" || exit 2
 git checkout -q -- . 
 res() { echo "SEED-CONFIRM $(basename $WD)/$L: $*"; }
-build() { make -j16 >/dev/null 2>$WD/${L}_confirm_build.err; }
+build() { make -j6 >/dev/null 2>$WD/${L}_confirm_build.err; }
 demo() { gcc -w -I$WT/include -I$WT/include/private/autogen -I$WT/include/hwloc/autogen -I$WT/hwloc -I$WT/utils/hwloc -I$WT $WD/${L}_demo.c $WT/hwloc/.libs/libhwloc.so -Wl,-rpath,$WT/hwloc/.libs -lm -lpthread -o $WD/${L}_demo.bin 2>$WD/${L}_confirm_cc.err || return 99; timeout 120 $WD/${L}_demo.bin >$WD/${L}_confirm_demo.out 2>&1; }
 git apply --check $WD/$L.diff || { res "patch does not apply"; exit 1; }
 build || { res "clean build failed"; exit 1; }
 demo; base=$?
 git apply $WD/$L.diff
 build || { res "build with change failed"; git checkout -q -- .; exit 1; }
-make -j16 check > $WD/${L}_confirm_check.log 2>&1
+make -j6 check > $WD/${L}_confirm_check.log 2>&1
 fails=$(grep -E "^# (FAIL|ERROR):" $WD/${L}_confirm_check.log | awk '{s+=$3} END{print s+0}')
 passes=$(grep -E "^# PASS:" $WD/${L}_confirm_check.log | awk '{s+=$3} END{print s+0}')
 demo; mut=$?
